@@ -146,3 +146,60 @@ HX void hx_attributes(uint64_t hist, uint64_t) {
    vs_assert(oss.str() == "[" + want + "]", "attribute field shows the most recent value: message attributes first, then global ones, ended scopes removed");
    vs_assert(lg.getAttribute("j") == (std::string) ([&] { for (size_t i = ref.size(); i-- > 0;) if (ref[i].first == "j") return ref[i].second; return std::string(); })(), "other attributes are untouched");
 }
+
+// (d) date / time / date-time fields: rendered with the custom format string if one was given, else as calendar date
+// (yyyy-mm-dd), time (hh:mm:ss) or both; the oracle is strftime() itself (libc contract, TZ=UTC), the time stamp is a
+// concrete value chosen by the driver, width and alignment are symbolic
+HX void hx_dates(uint64_t kind, uint64_t custom, uint64_t ts) {
+   static const char* const CUSTOM[] = {nullptr, "%H", "%d.%m.%Y", "%Y week %V", "%j", "%y%m%d-%H%M%S"};
+   static const char* const DEFAULT[] = {"%Y-%m-%d", "%H:%M:%S", "%Y-%m-%d %H:%M:%S"};
+   ::setenv("TZ", "UTC0", 1); ::tzset();
+   fmt::Definition def;
+   int w = vs_u8("width"); vs_assume(w <= 24);
+   bool left = vs_u8("left") & 1;
+   {
+      fmt::Creator c(def);
+      c << std::string("<");
+      if (w > 0) c << w;
+      if (left) c << fmt::left;
+      if (CUSTOM[custom]) c << fmt::formatString(CUSTOM[custom]);
+      if (kind == 0) c << fmt::date; else if (kind == 1) c << fmt::time; else c << fmt::date_time;
+      c << std::string(">") << fmt::date;          // the format string applies to one field only
+   }
+   detail::LogMsg m("file.cpp", "f", 1);
+   m.setTimestamp((time_t) ts);
+   std::ostringstream oss; fmt::Format f(def); f.format(oss, m);
+   time_t t = (time_t) ts; char buf[128];
+   ::strftime(buf, sizeof(buf), CUSTOM[custom] ? CUSTOM[custom] : DEFAULT[kind], ::localtime(&t));
+   std::string want = "<" + pad(buf, w, left) + ">";
+   ::strftime(buf, sizeof(buf), DEFAULT[0], ::localtime(&t));
+   want += buf;
+   vs_assert(oss.str() == want, "date/time field = time stamp of the message rendered with the field's format string (default: calendar date / time), padded and aligned");
+}
+
+// (e) hierarchies of message attribute objects: the innermost object that defines the attribute wins, outer objects are
+// searched level by level, global attributes only when no level defines it.  `levels` objects, the subset of levels that
+// define "k" (twice at a level: the newer value wins) and the presence of a global "k" are symbolic.
+HX void hx_attr_hier(uint64_t levels, uint64_t) {
+   auto& lg = Logging::instance();
+   unsigned defs = vs_u8("defs"), twice = vs_u8("twice"), glob = vs_u8("global") & 1;
+   vs_assume(defs < (1u << levels) && twice < (1u << levels));
+   static const char* const VAL[] = {"v0", "v1", "v2", "v3", "v4"};
+   static const char* const VAL2[] = {"w0", "w1", "w2", "w3", "w4"};
+   if (glob) lg.addAttribute("k", "global");
+   std::vector<LogAttributes*> objs; std::string want;
+   for (unsigned i = 0; i < levels; ++i) {          // level 0 is the outermost
+      LogAttributes* a = i == 0 ? new LogAttributes : new LogAttributes(objs.back());
+      if ((defs >> i) & 1) {
+         a->addAttribute("k", VAL[i]); want = VAL[i];
+         if ((twice >> i) & 1) { a->addAttribute("k", VAL2[i]); want = VAL2[i]; }
+      }
+      a->addAttribute("other", "o");
+      objs.push_back(a);
+   }
+   if (want.empty() && glob) want = "global";
+   fmt::Definition def; { fmt::Creator c(def); c << std::string("[") << fmt::attribute("k") << std::string("]"); }
+   detail::LogMsg m("file.cpp", "f", 1); m.setAttributes(*objs.back());
+   std::ostringstream oss; fmt::Format f(def); f.format(oss, m);
+   vs_assert(oss.str() == "[" + want + "]", "attribute field shows the value of the innermost attribute object that defines it, global value only if none does");
+}
